@@ -22,4 +22,51 @@ def check_C05(rep, known):
     scen_job(rep, 'ScenShoot', 'C05', [r'C05\.', r'build', r'varmap'], known)
 
 
-CHECKS = {'C01': check_C01, 'C04': check_C04, 'C05': check_C05}
+
+def life_job(rep, own, known):
+    # exhaustive histories of depth 3 (quick) / 4 (thorough) + random histories of depth 12 / 16
+    thorough = rep.tier == 'thorough'
+    d = 4 if thorough else 3
+    recs, st = tlc.generate('ScenLife', 'ScenLife.cfg', 'life-bfs', rep.tier, rep.seed, parts=14, extra_env={'DEPTH': d})
+    rep.add_tlc(st)
+    sims = []
+    nsim, dsim = (3000, 16) if thorough else (400, 12)
+    for j in range(4):
+        r2, st2 = tlc.generate('ScenLife', 'ScenLife.cfg', 'life-sim%d' % j, rep.tier, rep.seed, parts=1,
+                               extra_env={'DEPTH': dsim}, extra=['-simulate', 'num=%d' % (nsim // 4), '-depth', str(dsim), '-seed', str(rep.seed * 10 + j)])
+        rep.add_tlc(st2); sims += r2
+    if not thorough:
+        recs = [r for i, r in enumerate(recs) if i % 8 == rep.seed % 8]   # quick: a seed-dependent eighth of the exhaustive set
+    recs = recs + sims
+    outs = engine.pool_map('life', 'replay', recs)
+    engine.process_results(rep, recs, outs, own, known, clause_base=lambda c: c.split('@')[0],
+                           sig_fn=lambda r: ';'.join('%s(%s)' % (h['op'], h['arg']) for h in r['hist']))
+    mc_lifecycle(rep)
+
+
+def mc_lifecycle(rep):
+    out, st = tlc.run_tlc('MC_Lifecycle', 'MC_Lifecycle_ideal.cfg', workers=8)
+    if st['violation']:
+        raise tlc.TlcError('Lifecycle ideal configuration violates %s' % st['violation'])
+    st['module'] = 'MC_Lifecycle(ideal)'
+    rep.add_tlc(st)
+
+
+def check_C13(rep, known):
+    life_job(rep, [r'C13\.'], known)
+
+
+def check_C09(rep, known):
+    life_job(rep, [r'C09\.'], known)
+
+
+def check_C10(rep, known):
+    life_job(rep, [r'C10\.'], known)
+
+
+def check_C18(rep, known):
+    life_job(rep, [r'C18\.', r'C13\.d:outcome@\d+:save'], known)
+
+
+CHECKS = {'C01': check_C01, 'C04': check_C04, 'C05': check_C05, 'C13': check_C13, 'C18': check_C18, 'C09': check_C09, 'C10': check_C10}
+ENGINE = {p: ['life', 'replay'] for p in ('C13', 'C18', 'C09', 'C10')}
